@@ -1,6 +1,7 @@
 import Sudachi.Proofs.Sentence
+import Sudachi.Proofs.SentenceConv
 /-!
-# Declarative specifications of the simple regular expressions of `sentence_detector.rs` (C16)
+# Declarative specifications of the regular expressions of `sentence_detector.rs` (C16)
 
 `RE` is a small regular-expression syntax (character class, sequence, alternation, `+`) with its
 standard denotation `RE.Matches r u` ("the string `u` is in the language of `r`").  The patterns
@@ -12,6 +13,7 @@ the language; `…\z` unanchored = some suffix is; `\A(…)+` `find` = the longe
 greedy `+` over a single class; `find(..).start() == 0` = some prefix is in the language).  What
 remains trusted for these four is only the character classes and this reading of the anchors.
 -/
+set_option linter.unusedSimpArgs false
 namespace Sentence
 
 inductive RE where
@@ -324,5 +326,976 @@ theorem parenLevel_spec (s : Text) :
       · simp only [ho, hc, Bool.or_self, Bool.false_eq_true, if_false]
         rw [ih]
         simp [parenStep, ho, hc]
+
+/-! ## backtracking (leftmost-first) semantics: SENTENCE_BREAKER with `find_iter`, SPACES with `find`
+
+The two remaining patterns use what the `RE` language above cannot express: greedy `*`/`+`/`{n,}`, a
+possessive repetition (`・{3,}+` is `(?>・{3,})` in `fancy_regex`), a negative look-behind and a negative
+look-ahead, and what matters for them is not only the language but WHICH match the engine reports.
+`RX` is that syntax; `RX.run r prev rest` is its backtracking semantics: the list of lengths the pattern
+can consume at this position (`prev` = the character before it, for the look-behind), in the order a
+backtracking engine tries them (alternatives left to right, greedy repetition longest first).  Both
+engines are LEFTMOST-FIRST: `fancy_regex` runs a backtracking VM, the `regex` crate documents
+leftmost-first ("as a backtracking engine would") semantics.  So `find` from a position reports the
+leftmost start at which `run` is non-empty together with the HEAD of that list (`RX.findFrom`), and
+`find_iter` repeats `find` from the end of the previous match (`RX.findIter`).
+
+Proved: `breakerAt` is that head for `reBreaker` (`breakerAt_spec`), `matchEnds` (the traversal of `scan`)
+are the ends `findIter reBreaker` yields (`matchEnds_findIter`), `spacesEnd` is the end `findFrom reSpaces`
+yields (`spacesEnd_spec`).  For both patterns the head of `run` is also its MAXIMUM (`breakerAt_spec`,
+`reSpaces_longest`): leftmost-longest (POSIX) semantics would report the same matches — the patterns do not
+depend on the difference, the code does not either.  Trusted for these two is now only the transcription
+of the pattern text into the `RX` value and this standard semantics of the constructs. -/
+
+inductive RX where
+  | eps : RX                              -- the empty pattern
+  | cls (p : Nat → Bool) : RX             -- `[...]`, `.`, `\s`, or a literal character
+  | seq (a b : RX) : RX                   -- `ab`
+  | alt (a b : RX) : RX                   -- `a|b`, `a` tried first
+  | star (a : RX) : RX                    -- greedy `a*`
+  | atomic (a : RX) : RX                  -- `(?>a)`: only the first way `a` matches, no backtracking into it
+  | notBehind (p : Nat → Bool) : RX       -- `(?<![p])`
+  | notAhead (p : Nat → Bool) : RX        -- `(?![p])`
+
+/-- the character before the position reached after consuming `n` characters of `rest` -/
+def advPrev (prev : Option Nat) (rest : Text) (n : Nat) : Option Nat :=
+  if n = 0 then prev else rest[n - 1]?
+
+/-- greedy `a*` given the semantics `ra` of `a`: one more (non-empty) iteration first, then stop;
+`fuel` = length of the rest (every iteration consumes at least one character) -/
+def RX.starRun (ra : Option Nat → Text → List Nat) : Nat → Option Nat → Text → List Nat
+  | 0, _, _ => [0]
+  | f + 1, prev, rest =>
+    ((ra prev rest).filter (fun n => 0 < n)).flatMap
+        (fun n => (RX.starRun ra f (advPrev prev rest n) (rest.drop n)).map (n + ·)) ++ [0]
+
+/-- the lengths `r` can consume at the head of `rest` (`prev` = the character before it), in the order a
+backtracking engine tries them -/
+def RX.run : RX → Option Nat → Text → List Nat
+  | .eps, _, _ => [0]
+  | .cls p, _, c :: _ => if p c then [1] else []
+  | .cls _, _, [] => []
+  | .seq a b, prev, rest =>
+    (RX.run a prev rest).flatMap (fun n => (RX.run b (advPrev prev rest n) (rest.drop n)).map (n + ·))
+  | .alt a b, prev, rest => RX.run a prev rest ++ RX.run b prev rest
+  | .star a, prev, rest => RX.starRun (RX.run a) rest.length prev rest
+  | .atomic a, prev, rest => (RX.run a prev rest).take 1
+  | .notBehind p, prev, _ => match prev with | some c => if p c then [] else [0] | none => [0]
+  | .notAhead p, _, rest => match rest with | c :: _ => if p c then [] else [0] | [] => [0]
+
+/-- greedy `a{n,}` = `a … a a*` -/
+def RX.atLeast : Nat → RX → RX
+  | 0, a => .star a
+  | n + 1, a => .seq a (RX.atLeast n a)
+
+/-- greedy `a+` = `a a*` -/
+def RX.plus (a : RX) : RX := .seq a (.star a)
+
+def RX.chr (c : Nat) : RX := .cls (fun x => x == c)
+
+/-- descending list `k, k-1, …, 0` -/
+def desc : Nat → List Nat
+  | 0 => [0]
+  | k + 1 => (k + 1) :: desc k
+
+theorem desc_head (k : Nat) : (desc k).head? = some k := by cases k <;> rfl
+
+theorem desc_le : ∀ (k m : Nat), m ∈ desc k → m ≤ k := by
+  intro k
+  induction k with
+  | zero => intro m h; simp [desc] at h; omega
+  | succ k ih =>
+    intro m h
+    simp only [desc, List.mem_cons] at h
+    rcases h with rfl | h
+    · omega
+    · have := ih m h; omega
+
+theorem desc_shift : ∀ k, (desc k).map (1 + ·) ++ [0] = desc (k + 1) := by
+  intro k
+  induction k with
+  | zero => rfl
+  | succ k ih =>
+    have : desc (k + 1) = (k + 1) :: desc k := rfl
+    rw [this, List.map_cons, List.cons_append, ih]
+    have h2 : 1 + (k + 1) = k + 1 + 1 := by omega
+    rw [h2]
+    rfl
+
+/-- greedy `[class]*`: the possible lengths in backtracking order are `span, span-1, …, 0` -/
+theorem starRun_cls (p : Nat → Bool) : ∀ (rest : Text) (f : Nat) (prev : Option Nat), rest.length ≤ f →
+    RX.starRun (RX.run (.cls p)) f prev rest = desc (spanLen p rest) := by
+  intro rest
+  induction rest with
+  | nil =>
+    intro f prev _
+    cases f with
+    | zero => rfl
+    | succ f => simp [RX.starRun, RX.run, spanLen, desc]
+  | cons c cs ih =>
+    intro f prev hf
+    cases f with
+    | zero => simp at hf
+    | succ f =>
+      simp only [List.length_cons] at hf
+      by_cases hp : p c = true
+      · simp only [RX.starRun, RX.run, hp, if_true, spanLen]
+        simp only [List.filter_cons, List.filter_nil, Nat.zero_lt_one, decide_true, if_true,
+          List.flatMap_cons, List.flatMap_nil, List.append_nil, List.drop_succ_cons, List.drop_zero]
+        rw [ih f _ (by omega)]
+        exact desc_shift _
+      · simp only [RX.starRun, RX.run, hp, spanLen]
+        simp [desc]
+
+theorem run_star_cls (p : Nat → Bool) (prev : Option Nat) (rest : Text) :
+    RX.run (.star (.cls p)) prev rest = desc (spanLen p rest) := by
+  simp only [RX.run]
+  exact starRun_cls p rest _ prev (Nat.le_refl _)
+
+theorem desc_take1 (k : Nat) : (desc k).take 1 = [k] := by cases k <;> rfl
+
+/-- `[class]{n,}` (greedy): the first length in backtracking order is the whole run of the class, if
+that is at least `n` characters long; otherwise there is no match -/
+theorem run_atLeast_cls_take1 (p : Nat → Bool) : ∀ (n : Nat) (prev : Option Nat) (l : Text),
+    (RX.run (RX.atLeast n (.cls p)) prev l).take 1 = if n ≤ spanLen p l then [spanLen p l] else [] := by
+  intro n
+  induction n with
+  | zero =>
+    intro prev l
+    simp only [RX.atLeast, run_star_cls, desc_take1, Nat.zero_le, if_true]
+  | succ n ih =>
+    intro prev l
+    cases l with
+    | nil => simp [RX.atLeast, RX.run, spanLen]
+    | cons c cs =>
+      by_cases hp : p c = true
+      · simp only [RX.atLeast, RX.run, hp, if_true, List.flatMap_cons, List.flatMap_nil, List.append_nil,
+          List.drop_succ_cons, List.drop_zero, spanLen]
+        rw [← List.map_take, ih]
+        by_cases hn : n ≤ spanLen p cs
+        · have : n + 1 ≤ spanLen p cs + 1 := by omega
+          simp [hn, this]; omega
+        · have : ¬ (n + 1 ≤ spanLen p cs + 1) := by omega
+          simp [hn, this]
+      · simp [RX.atLeast, RX.run, hp, spanLen]
+
+/-- every length `[class]{n,}` can take is at most the run of the class -/
+theorem run_atLeast_cls_le (p : Nat → Bool) : ∀ (n : Nat) (prev : Option Nat) (l : Text),
+    ∀ m ∈ RX.run (RX.atLeast n (.cls p)) prev l, m ≤ spanLen p l := by
+  intro n
+  induction n with
+  | zero =>
+    intro prev l m hm
+    simp only [RX.atLeast, run_star_cls] at hm
+    exact desc_le _ _ hm
+  | succ n ih =>
+    intro prev l m hm
+    cases l with
+    | nil => simp [RX.atLeast, RX.run] at hm
+    | cons c cs =>
+      by_cases hp : p c = true
+      · simp only [RX.atLeast, RX.run, hp, if_true, List.flatMap_cons, List.flatMap_nil, List.append_nil,
+          List.drop_succ_cons, List.drop_zero, List.mem_map] at hm
+        obtain ⟨m', hm', rfl⟩ := hm
+        have := ih _ cs m' hm'
+        simp only [spanLen, hp, if_true]
+        omega
+      · simp [RX.atLeast, RX.run, hp] at hm
+
+/-! ### the line-break tag `(<br>|<BR>)` -/
+
+def reBrLower : RX := .seq (RX.chr 0x3C) (.seq (RX.chr 0x62) (.seq (RX.chr 0x72) (RX.chr 0x3E)))
+def reBrUpper : RX := .seq (RX.chr 0x3C) (.seq (RX.chr 0x42) (.seq (RX.chr 0x52) (RX.chr 0x3E)))
+/-- `(<br>|<BR>)` -/
+def reTag : RX := .alt reBrLower reBrUpper
+
+def tagHead : Text → Bool
+  | a :: b :: c :: d :: _ => isBrTag a b c d
+  | _ => false
+
+theorem run_chr_cons (x c : Nat) (prev : Option Nat) (cs : Text) :
+    RX.run (RX.chr x) prev (c :: cs) = if c = x then [1] else [] := by
+  simp [RX.chr, RX.run]
+
+theorem run_chr_nil (x : Nat) (prev : Option Nat) : RX.run (RX.chr x) prev [] = [] := by
+  simp [RX.chr, RX.run]
+
+theorem run_lit4 (w x y z : Nat) (prev : Option Nat) (l : Text) :
+    RX.run (.seq (RX.chr w) (.seq (RX.chr x) (.seq (RX.chr y) (RX.chr z)))) prev l =
+      match l with
+      | a :: b :: c :: d :: _ => if a = w ∧ b = x ∧ c = y ∧ d = z then [4] else []
+      | _ => [] := by
+  match l with
+  | [] => simp [RX.run, run_chr_nil]
+  | [a] =>
+    simp only [RX.run, run_chr_cons]
+    by_cases h : a = w <;> simp [h, run_chr_nil]
+  | [a, b] =>
+    simp only [RX.run, run_chr_cons]
+    by_cases h : a = w <;> by_cases h2 : b = x <;> simp [h, h2, run_chr_nil, run_chr_cons]
+  | [a, b, c] =>
+    simp only [RX.run, run_chr_cons]
+    by_cases h : a = w <;> by_cases h2 : b = x <;> by_cases h3 : c = y <;>
+      simp [h, h2, h3, run_chr_nil, run_chr_cons]
+  | a :: b :: c :: d :: r =>
+    simp only [RX.run, run_chr_cons]
+    by_cases h : a = w <;> by_cases h2 : b = x <;> by_cases h3 : c = y <;> by_cases h4 : d = z <;>
+      simp [h, h2, h3, h4, run_chr_cons]
+
+theorem run_reTag (prev : Option Nat) (l : Text) :
+    RX.run reTag prev l = if tagHead l = true then [4] else [] := by
+  have halt : ∀ a b : RX, RX.run (.alt a b) prev l = RX.run a prev l ++ RX.run b prev l := by
+    intro a b; simp [RX.run]
+  simp only [reTag, reBrLower, reBrUpper]
+  rw [halt, run_lit4, run_lit4]
+  match l with
+  | [] => simp [tagHead]
+  | [a] => simp [tagHead]
+  | [a, b] => simp [tagHead]
+  | [a, b, c] => simp [tagHead]
+  | a :: b :: c :: d :: r =>
+    simp only [tagHead, isBrTag]
+    by_cases h1 : a = 0x3C <;> by_cases h4 : d = 0x3E <;> by_cases h2 : b = 0x62 <;> by_cases h3 : c = 0x72 <;>
+      by_cases h5 : b = 0x42 <;> by_cases h6 : c = 0x52 <;> simp [h1, h2, h3, h4, h5, h6] <;> omega
+
+theorem brUnits_of_tagHead {l : Text} (h : tagHead l = true) : brUnits l = brUnits (l.drop 4) + 1 := by
+  match l, h with
+  | a :: b :: c :: d :: r, h =>
+    simp only [tagHead] at h
+    simp [brUnits, h]
+
+theorem brUnits_of_not_tagHead {l : Text} (h : ¬ tagHead l = true) : brUnits l = 0 := by
+  match l with
+  | [] => rfl
+  | [a] => rfl
+  | [a, b] => rfl
+  | [a, b, c] => rfl
+  | a :: b :: c :: d :: r =>
+    simp only [tagHead] at h
+    simp [brUnits, h]
+
+theorem tagHead_length {l : Text} (h : tagHead l = true) : 4 ≤ l.length := by
+  match l, h with
+  | a :: b :: c :: d :: r, _ => simp
+
+/-- greedy `(<br>|<BR>)*`: the first length in backtracking order is all the leading tags, and no
+length is larger -/
+theorem starRun_tag : ∀ (f : Nat) (l : Text) (prev : Option Nat), l.length ≤ f →
+    (RX.starRun (RX.run reTag) f prev l).head? = some (4 * brUnits l) ∧
+    ∀ m ∈ RX.starRun (RX.run reTag) f prev l, m ≤ 4 * brUnits l := by
+  intro f
+  induction f with
+  | zero =>
+    intro l prev hl
+    have : l = [] := List.length_eq_zero_iff.mp (by omega)
+    subst this
+    simp [RX.starRun, brUnits]
+  | succ f ih =>
+    intro l prev hl
+    by_cases ht : tagHead l = true
+    · have h4 := tagHead_length ht
+      obtain ⟨ih1, ih2⟩ := ih (l.drop 4) (advPrev prev l 4) (by simp only [List.length_drop]; omega)
+      simp only [RX.starRun, run_reTag, ht, if_true, List.filter_cons, List.filter_nil, Nat.lt_irrefl,
+        decide_true, List.flatMap_cons, List.flatMap_nil, List.append_nil, brUnits_of_tagHead ht]
+      have h04 : (0 < 4) = True := by simp
+      simp only [h04, decide_true, if_true, List.flatMap_cons, List.flatMap_nil, List.append_nil]
+      constructor
+      · rw [List.head?_append, List.head?_map, ih1]
+        simp; omega
+      · intro m hm
+        simp only [List.mem_append, List.mem_map, List.mem_singleton] at hm
+        rcases hm with ⟨m', hm', rfl⟩ | rfl
+        · have := ih2 m' hm'; omega
+        · omega
+    · simp [RX.starRun, run_reTag, ht, brUnits_of_not_tagHead ht]
+
+/-- `(<br>|<BR>){n,}` -/
+theorem run_atLeast_tag : ∀ (n : Nat) (l : Text) (prev : Option Nat),
+    (RX.run (RX.atLeast n reTag) prev l).head? = (if n ≤ brUnits l then some (4 * brUnits l) else none) ∧
+    ∀ m ∈ RX.run (RX.atLeast n reTag) prev l, n ≤ brUnits l ∧ m ≤ 4 * brUnits l := by
+  intro n
+  induction n with
+  | zero =>
+    intro l prev
+    have := starRun_tag l.length l prev (Nat.le_refl _)
+    simp only [RX.atLeast, RX.run, Nat.zero_le, if_true, true_and]
+    exact this
+  | succ n ih =>
+    intro l prev
+    have hseq : RX.run (RX.atLeast (n + 1) reTag) prev l =
+        (RX.run reTag prev l).flatMap
+          (fun k => (RX.run (RX.atLeast n reTag) (advPrev prev l k) (l.drop k)).map (k + ·)) := by
+      simp [RX.atLeast, RX.run]
+    rw [hseq, run_reTag]
+    by_cases ht : tagHead l = true
+    · obtain ⟨ih1, ih2⟩ := ih (l.drop 4) (advPrev prev l 4)
+      have hb := brUnits_of_tagHead ht
+      simp only [ht, if_true, List.flatMap_cons, List.flatMap_nil, List.append_nil]
+      constructor
+      · rw [List.head?_map, ih1, hb]
+        by_cases hn : n ≤ brUnits (l.drop 4)
+        · have : n + 1 ≤ brUnits (l.drop 4) + 1 := by omega
+          simp [hn, this]; omega
+        · have : ¬ (n + 1 ≤ brUnits (l.drop 4) + 1) := by omega
+          simp [hn, this]
+      · intro m hm
+        simp only [List.mem_map] at hm
+        obtain ⟨m', hm', rfl⟩ := hm
+        have := ih2 m' hm'
+        omega
+    · have hb := brUnits_of_not_tagHead ht
+      simp [ht, hb]
+
+/-! ### SENTENCE_BREAKER -/
+
+/-- `(?<![AN])[DOT](?![AN COMMA])` -/
+def reDotAlt : RX :=
+  .seq (.notBehind isAN) (.seq (.cls isDot) (.notAhead (fun c => isAN c || isComma c)))
+
+/-- `[PERIODS]|・{3,}+|(?<![AN])[DOT](?![AN COMMA])` — `x{3,}+` is possessive in `fancy_regex`: `(?>x{3,})` -/
+def reBreakerHead : RX :=
+  .alt (.cls isPeriod) (.alt (.atomic (RX.atLeast 3 (.cls isCdot))) reDotAlt)
+
+/-- SENTENCE_BREAKER: `([PERIODS]|・{3,}+|(?<![AN])[DOT](?![AN COMMA]))[DOT PERIODS]*|(<br>|<BR>){2,}` -/
+def reBreaker : RX :=
+  .alt (.seq reBreakerHead (.star (.cls isDotOrPeriod))) (RX.atLeast 2 reTag)
+
+theorem run_alt (a b : RX) (prev : Option Nat) (l : Text) :
+    RX.run (.alt a b) prev l = RX.run a prev l ++ RX.run b prev l := by simp [RX.run]
+
+theorem run_seq (a b : RX) (prev : Option Nat) (l : Text) :
+    RX.run (.seq a b) prev l =
+      (RX.run a prev l).flatMap (fun n => (RX.run b (advPrev prev l n) (l.drop n)).map (n + ·)) := by
+  simp [RX.run]
+
+theorem run_atomic (a : RX) (prev : Option Nat) (l : Text) :
+    RX.run (.atomic a) prev l = (RX.run a prev l).take 1 := by simp [RX.run]
+
+theorem run_reDotAlt (prev : Option Nat) (c : Nat) (rest : Text) :
+    RX.run reDotAlt prev (c :: rest) =
+      if (isDot c && (notAfterAN prev && notBeforeANComma rest)) = true then [1] else [] := by
+  unfold reDotAlt
+  rw [run_seq]
+  have hnb : RX.run (.notBehind isAN) prev (c :: rest) = if notAfterAN prev = true then [0] else [] := by
+    cases prev with
+    | none => simp [RX.run, notAfterAN]
+    | some p => by_cases h : isAN p = true <;> simp [RX.run, notAfterAN, h]
+  rw [hnb]
+  by_cases h1 : notAfterAN prev = true
+  · simp only [h1, if_true, List.flatMap_cons, List.flatMap_nil, List.append_nil, advPrev, if_true,
+      List.drop_zero, Bool.true_and]
+    rw [run_seq]
+    by_cases h2 : isDot c = true
+    · have hc : RX.run (.cls isDot) prev (c :: rest) = [1] := by simp [RX.run, h2]
+      rw [hc]
+      simp only [List.flatMap_cons, List.flatMap_nil, List.append_nil, List.drop_succ_cons, List.drop_zero, h2,
+        Bool.true_and]
+      cases rest with
+      | nil => simp [RX.run, notBeforeANComma]
+      | cons d ds =>
+        by_cases h3 : (isAN d || isComma d) = true
+        · simp [RX.run, notBeforeANComma, h3]
+        · simp [RX.run, notBeforeANComma, h3]
+    · have hc : RX.run (.cls isDot) prev (c :: rest) = [] := by simp [RX.run, h2]
+      rw [hc]
+      simp [h2]
+  · simp [h1]
+
+theorem run_reDotAlt_nil (prev : Option Nat) : RX.run reDotAlt prev [] = [] := by
+  unfold reDotAlt
+  rw [run_seq]
+  have : ∀ pv : Option Nat, RX.run (.seq (.cls isDot) (.notAhead (fun c => isAN c || isComma c))) pv [] = [] := by
+    intro pv; rw [run_seq]; simp [RX.run]
+  simp [this]
+
+theorem spanLen_cons (p : Nat → Bool) (c : Nat) (cs : Text) :
+    spanLen p (c :: cs) = if p c = true then spanLen p cs + 1 else 0 := by simp [spanLen]
+
+/-- the alternatives of the head group have disjoint first characters: at most one length -/
+theorem run_reBreakerHead (prev : Option Nat) (c : Nat) (rest : Text) :
+    RX.run reBreakerHead prev (c :: rest) =
+      if isPeriod c = true then [1]
+      else if isCdot c = true then (if 3 ≤ 1 + spanLen isCdot rest then [1 + spanLen isCdot rest] else [])
+      else if isDot c = true then (if (notAfterAN prev && notBeforeANComma rest) = true then [1] else [])
+      else [] := by
+  unfold reBreakerHead
+  rw [run_alt, run_alt, run_atomic, run_atLeast_cls_take1, run_reDotAlt, spanLen_cons]
+  have hP : RX.run (.cls isPeriod) prev (c :: rest) = if isPeriod c = true then [1] else [] := by simp [RX.run]
+  rw [hP]
+  by_cases h1 : isPeriod c = true
+  · have h2 : isCdot c = false := by
+      simp only [isPeriod, Bool.or_eq_true, decide_eq_true_eq] at h1
+      simp only [isCdot, decide_eq_false_iff_not]; omega
+    have h3 : isDot c = false := by
+      simp only [isPeriod, Bool.or_eq_true, decide_eq_true_eq] at h1
+      simp only [isDot, Bool.or_eq_false_iff, decide_eq_false_iff_not]; omega
+    simp [h1, h2, h3]
+  · by_cases h2 : isCdot c = true
+    · have h3 : isDot c = false := by
+        simp only [isCdot, decide_eq_true_eq] at h2
+        simp only [isDot, Bool.or_eq_false_iff, decide_eq_false_iff_not]; omega
+      have e : spanLen isCdot rest + 1 = 1 + spanLen isCdot rest := by omega
+      simp [h1, h2, h3, e]
+    · by_cases h3 : isDot c = true
+      · simp [h1, h2, h3]
+      · simp [h1, h2, h3]
+
+theorem run_reBreakerHead_nil (prev : Option Nat) : RX.run reBreakerHead prev [] = [] := by
+  unfold reBreakerHead
+  rw [run_alt, run_alt, run_atomic, run_atLeast_cls_take1, run_reDotAlt_nil]
+  simp [RX.run, spanLen]
+
+theorem tagHead_of_ne {c : Nat} {rest : Text} (h : c ≠ 0x3C) : ¬ tagHead (c :: rest) = true := by
+  match rest with
+  | [] => simp [tagHead]
+  | [b] => simp [tagHead]
+  | [b, d] => simp [tagHead]
+  | b :: d :: e :: r => simp [tagHead, isBrTag, h]
+
+/-- a one-length head followed by the greedy `[DOT PERIODS]*` -/
+theorem run_head_then_star (prev : Option Nat) (l : Text) (g : Nat) (h : RX.run reBreakerHead prev l = [g]) :
+    RX.run (.seq reBreakerHead (.star (.cls isDotOrPeriod))) prev l =
+      (desc (spanLen isDotOrPeriod (l.drop g))).map (g + ·) := by
+  rw [run_seq, h]
+  simp [run_star_cls]
+
+theorem run_head_then_star_nil (prev : Option Nat) (l : Text) (h : RX.run reBreakerHead prev l = []) :
+    RX.run (.seq reBreakerHead (.star (.cls isDotOrPeriod))) prev l = [] := by
+  rw [run_seq, h]
+  simp
+
+/-- **SENTENCE_BREAKER anchored at a position** (look-behind character `prev`): the hand-written matcher
+`breakerAt` answers the FIRST length in backtracking order of the pattern (what the leftmost-first
+engines of `fancy_regex` / `regex` report for a match starting here), and that length is also the
+LARGEST one the pattern can take here — so leftmost-longest semantics would give the same match. -/
+theorem breakerAt_spec (prev : Option Nat) (l : Text) :
+    (RX.run reBreaker prev l).head? = breakerAt prev l ∧
+    ∀ m ∈ RX.run reBreaker prev l, ∃ n, breakerAt prev l = some n ∧ m ≤ n := by
+  unfold reBreaker
+  rw [run_alt]
+  obtain ⟨hT1, hT2⟩ := run_atLeast_tag 2 l prev
+  cases l with
+  | nil =>
+    rw [run_head_then_star_nil _ _ (run_reBreakerHead_nil prev)]
+    simp only [List.nil_append]
+    have hb : brUnits ([] : Text) = 0 := rfl
+    rw [hb] at hT1 hT2
+    refine ⟨by rw [hT1]; simp [breakerAt], ?_⟩
+    intro m hm
+    have := (hT2 m hm).1
+    omega
+  | cons c rest =>
+    have hH := run_reBreakerHead prev c rest
+    -- the tag alternative needs `<` first
+    have hTag : c ≠ 0x3C → RX.run (RX.atLeast 2 reTag) prev (c :: rest) = [] := by
+      intro hc
+      have hb := brUnits_of_not_tagHead (tagHead_of_ne (rest := rest) hc)
+      cases hr : RX.run (RX.atLeast 2 reTag) prev (c :: rest) with
+      | nil => rfl
+      | cons m ms =>
+        have := (hT2 m (by rw [hr]; simp)).1
+        omega
+    have one : ∀ g, RX.run reBreakerHead prev (c :: rest) = [g] → c ≠ 0x3C → 1 ≤ g →
+        breakerAt prev (c :: rest) = some (g + spanLen isDotOrPeriod (rest.drop (g - 1))) →
+        (RX.run (.seq reBreakerHead (.star (.cls isDotOrPeriod))) prev (c :: rest) ++
+            RX.run (RX.atLeast 2 reTag) prev (c :: rest)).head? = breakerAt prev (c :: rest) ∧
+        ∀ m ∈ RX.run (.seq reBreakerHead (.star (.cls isDotOrPeriod))) prev (c :: rest) ++
+            RX.run (RX.atLeast 2 reTag) prev (c :: rest), ∃ n, breakerAt prev (c :: rest) = some n ∧ m ≤ n := by
+      intro g hg hc h1 hb
+      have hd : (c :: rest).drop g = rest.drop (g - 1) := by
+        cases g with
+        | zero => omega
+        | succ g => simp
+      rw [run_head_then_star _ _ g hg, hTag hc, List.append_nil, hd, hb]
+      refine ⟨by rw [List.head?_map, desc_head]; rfl, ?_⟩
+      intro m hm
+      simp only [List.mem_map] at hm
+      obtain ⟨m', hm', rfl⟩ := hm
+      exact ⟨_, rfl, by have := desc_le _ _ hm'; omega⟩
+    have none' : RX.run reBreakerHead prev (c :: rest) = [] → c ≠ 0x3C → breakerAt prev (c :: rest) = none →
+        (RX.run (.seq reBreakerHead (.star (.cls isDotOrPeriod))) prev (c :: rest) ++
+            RX.run (RX.atLeast 2 reTag) prev (c :: rest)).head? = breakerAt prev (c :: rest) ∧
+        ∀ m ∈ RX.run (.seq reBreakerHead (.star (.cls isDotOrPeriod))) prev (c :: rest) ++
+            RX.run (RX.atLeast 2 reTag) prev (c :: rest), ∃ n, breakerAt prev (c :: rest) = some n ∧ m ≤ n := by
+      intro hg hc hb
+      rw [run_head_then_star_nil _ _ hg, hTag hc, hb]
+      simp
+    by_cases h1 : isPeriod c = true
+    · have hc : c ≠ 0x3C := by
+        simp only [isPeriod, Bool.or_eq_true, decide_eq_true_eq] at h1; omega
+      refine one 1 (by rw [hH]; simp [h1]) hc (Nat.le_refl _) ?_
+      simp [breakerAt, h1]
+    · by_cases h2 : isCdot c = true
+      · have hc : c ≠ 0x3C := by simp only [isCdot, decide_eq_true_eq] at h2; omega
+        by_cases h3 : 3 ≤ 1 + spanLen isCdot rest
+        · refine one (1 + spanLen isCdot rest) (by rw [hH]; simp [h1, h2, h3]) hc (by omega) ?_
+          simp [breakerAt, h1, h2, h3]
+        · refine none' (by rw [hH]; simp [h1, h2, h3]) hc ?_
+          simp [breakerAt, h1, h2, h3]
+      · by_cases h3 : isDot c = true
+        · have hc : c ≠ 0x3C := by
+            simp only [isDot, Bool.or_eq_true, decide_eq_true_eq] at h3; omega
+          by_cases h4 : (notAfterAN prev && notBeforeANComma rest) = true
+          · refine one 1 (by rw [hH]; simp [h1, h2, h3, h4]) hc (Nat.le_refl _) ?_
+            simp only [breakerAt, h1, h2, h3, h4]; simp
+          · refine none' (by rw [hH]; simp [h1, h2, h3, h4]) hc ?_
+            simp only [breakerAt, h1, h2, h3, h4]; simp
+        · have hg : RX.run reBreakerHead prev (c :: rest) = [] := by rw [hH]; simp [h1, h2, h3]
+          rw [run_head_then_star_nil _ _ hg, List.nil_append]
+          by_cases hc : c = 0x3C
+          · have hb : breakerAt prev (c :: rest) =
+                if 2 ≤ brUnits (c :: rest) then some (4 * brUnits (c :: rest)) else none := by
+              subst hc
+              simp [breakerAt, isPeriod, isCdot, isDot]
+            rw [hb, hT1]
+            refine ⟨rfl, ?_⟩
+            intro m hm
+            obtain ⟨hk, hm'⟩ := hT2 m hm
+            exact ⟨_, by simp [hk], hm'⟩
+          · rw [hTag hc]
+            have hb : breakerAt prev (c :: rest) = none := by
+              simp only [breakerAt, h1, h2, h3, hc]; simp
+            rw [hb]; simp
+
+/-! ### `find` and `find_iter` -/
+
+/-- `Regex::find` on the haystack from position `k` (look-behind character `prev`, the rest of the
+haystack `l`): the LEFTMOST position at which the pattern can match, with the FIRST length in
+backtracking order there (leftmost-first) — `(start, end)` in characters -/
+def RX.findFrom (r : RX) : Nat → Option Nat → Text → Option (Nat × Nat)
+  | k, prev, [] => (RX.run r prev []).head?.map (fun n => (k, k + n))
+  | k, prev, c :: cs =>
+    match (RX.run r prev (c :: cs)).head? with
+    | some n => some (k, k + n)
+    | none => RX.findFrom r (k + 1) (some c) cs
+
+/-- `Regex::find_iter` for a pattern without empty matches: successive non-overlapping matches, each
+search starting where the previous match ended, look-behind seeing the whole haystack.
+`fuel` = number of matches asked for. -/
+def RX.findIter (r : RX) : Nat → Nat → Option Nat → Text → List (Nat × Nat)
+  | 0, _, _, _ => []
+  | fuel + 1, k, prev, l =>
+    match RX.findFrom r k prev l with
+    | none => []
+    | some (j, e) => (j, e) :: RX.findIter r fuel e (advPrev prev l (e - k)) (l.drop (e - k))
+
+theorem advPrev_zero (prev : Option Nat) (l : Text) : advPrev prev l 0 = prev := by simp [advPrev]
+
+theorem advPrev_cons (prev : Option Nat) (c : Nat) (cs : Text) (n : Nat) :
+    advPrev prev (c :: cs) (n + 1) = advPrev (some c) cs n := by
+  unfold advPrev
+  cases n with
+  | zero => simp
+  | succ n => simp
+
+/-- the `skip` counter of `matchEnds` (= of `scan`) is "continue behind the previous match" -/
+theorem matchEnds_skip : ∀ (l : Text) (k : Nat) (prev : Option Nat) (skip : Nat),
+    matchEnds k prev skip l = matchEnds (k + skip) (advPrev prev l skip) 0 (l.drop skip) := by
+  intro l
+  induction l with
+  | nil => intro k prev skip; simp [matchEnds]
+  | cons c cs ih =>
+    intro k prev skip
+    cases skip with
+    | zero => simp [advPrev]
+    | succ sk =>
+      simp only [matchEnds, List.drop_succ_cons]
+      rw [ih, advPrev_cons]
+      congr 1
+      omega
+
+/-- one step of `find_iter` on SENTENCE_BREAKER = one reported end of `matchEnds` -/
+theorem matchEnds_find : ∀ (l : Text) (k : Nat) (prev : Option Nat),
+    match RX.findFrom reBreaker k prev l with
+    | none => matchEnds k prev 0 l = []
+    | some (j, e) => k ≤ j ∧ j < e ∧ e - k ≤ l.length ∧
+        matchEnds k prev 0 l = e :: matchEnds e (advPrev prev l (e - k)) 0 (l.drop (e - k)) := by
+  intro l
+  induction l with
+  | nil =>
+    intro k prev
+    have h := (breakerAt_spec prev []).1
+    simp only [RX.findFrom, h, breakerAt, Option.map_none]
+    simp [matchEnds]
+  | cons c cs ih =>
+    intro k prev
+    have h := (breakerAt_spec prev (c :: cs)).1
+    cases hb : breakerAt prev (c :: cs) with
+    | none =>
+      rw [hb] at h
+      simp only [RX.findFrom, h, matchEnds, hb]
+      have := ih (k + 1) (some c)
+      cases hf : RX.findFrom reBreaker (k + 1) (some c) cs with
+      | none => rw [hf] at this; exact this
+      | some je =>
+        obtain ⟨j, e⟩ := je
+        rw [hf] at this
+        obtain ⟨h1, h2, h3, h4⟩ := this
+        refine ⟨by omega, h2, by simp only [List.length_cons]; omega, ?_⟩
+        have he : e - k = (e - (k + 1)) + 1 := by omega
+        rw [h4, he, advPrev_cons, List.drop_succ_cons]
+    | some n =>
+      rw [hb] at h
+      have hn := breakerAt_bounds hb
+      simp only [RX.findFrom, h, matchEnds, hb]
+      refine ⟨Nat.le_refl _, by omega, by omega, ?_⟩
+      rw [matchEnds_skip]
+      have he : k + n - k = (n - 1) + 1 := by omega
+      rw [he, advPrev_cons, List.drop_succ_cons]
+      congr 2
+      omega
+
+/-- **`SENTENCE_BREAKER.find_iter(&s)`**: the ends of the successive non-overlapping leftmost-first
+matches of the pattern `reBreaker` in `s` are exactly the ends the loop of `get_eos` examines
+(`matchEnds`, the traversal of `scan`) -/
+theorem matchEnds_findIter : ∀ (fuel : Nat) (l : Text) (k : Nat) (prev : Option Nat), l.length < fuel →
+    (RX.findIter reBreaker fuel k prev l).map (·.2) = matchEnds k prev 0 l := by
+  intro fuel
+  induction fuel with
+  | zero => intro l k prev h; omega
+  | succ fuel ih =>
+    intro l k prev hl
+    have := matchEnds_find l k prev
+    simp only [RX.findIter]
+    cases hf : RX.findFrom reBreaker k prev l with
+    | none => rw [hf] at this; simp [this]
+    | some je =>
+      obtain ⟨j, e⟩ := je
+      rw [hf] at this
+      obtain ⟨h1, h2, h3, h4⟩ := this
+      simp only [List.map_cons]
+      rw [h4, ih _ _ _ (by simp only [List.length_drop]; omega)]
+
+/-! ### SPACES `.+\\s+` -/
+
+/-- `.` of the `regex` crate without the `s` flag: any character except `\\n` -/
+def isDotChar (c : Nat) : Bool := c != 0x0A
+
+/-- SPACES: `.+\\s+`, with `x+` read as `x x*` (both quantifiers greedy) -/
+def reSpaces : RX := .seq (RX.plus (.cls isDotChar)) (RX.plus (.cls isSpace))
+
+/-- `(ab)c` and `a(bc)` take the same lengths in the same backtracking order -/
+theorem run_seq_assoc (a b c : RX) (prev : Option Nat) (l : Text) :
+    RX.run (.seq (.seq a b) c) prev l = RX.run (.seq a (.seq b c)) prev l := by
+  have hadv : ∀ n m, advPrev (advPrev prev l n) (l.drop n) m = advPrev prev l (n + m) := by
+    intro n m
+    unfold advPrev
+    by_cases hm : m = 0
+    · subst hm; simp
+    · have hnm : ¬ (n + m = 0) := by omega
+      simp only [hm, hnm, if_false, List.getElem?_drop]
+      congr 1; omega
+  rw [run_seq, run_seq, run_seq]
+  simp only [List.flatMap_assoc, List.flatMap_map, run_seq, List.map_flatMap, List.map_map]
+  congr 1
+  funext n
+  congr 1
+  funext m
+  rw [hadv, List.drop_drop]
+  congr 1
+  funext x
+  simp only [Function.comp]
+  omega
+
+/-- `[class]+` greedy: `span, span-1, …, 1` -/
+theorem run_plus_cls (p : Nat → Bool) (prev : Option Nat) (l : Text) :
+    RX.run (RX.plus (.cls p)) prev l =
+      match l with
+      | [] => []
+      | c :: cs => if p c = true then (desc (spanLen p cs)).map (1 + ·) else [] := by
+  unfold RX.plus
+  rw [run_seq]
+  cases l with
+  | nil => simp [RX.run]
+  | cons c cs =>
+    by_cases hp : p c = true
+    · have : RX.run (.cls p) prev (c :: cs) = [1] := by simp [RX.run, hp]
+      rw [this]
+      simp [hp, run_star_cls]
+    · have : RX.run (.cls p) prev (c :: cs) = [] := by simp [RX.run, hp]
+      rw [this]
+      simp [hp]
+
+/-- `.*\\s+` from a position (the part of SPACES after its first character) -/
+def reSpacesTail : RX := .seq (.star (.cls isDotChar)) (RX.plus (.cls isSpace))
+
+theorem run_reSpaces_cons (prev : Option Nat) (c : Nat) (cs : Text) :
+    RX.run reSpaces prev (c :: cs) =
+      if isDotChar c = true then (RX.run reSpacesTail (some c) cs).map (1 + ·) else [] := by
+  unfold reSpaces RX.plus
+  rw [run_seq_assoc, run_seq]
+  by_cases hp : isDotChar c = true
+  · have : RX.run (.cls isDotChar) prev (c :: cs) = [1] := by simp [RX.run, hp]
+    rw [this]
+    simp [hp, reSpacesTail, RX.plus, advPrev]
+  · have : RX.run (.cls isDotChar) prev (c :: cs) = [] := by simp [RX.run, hp]
+    rw [this]
+    simp [hp]
+
+theorem run_reSpaces_nil (prev : Option Nat) : RX.run reSpaces prev [] = [] := by
+  unfold reSpaces RX.plus
+  rw [run_seq_assoc, run_seq]
+  simp [RX.run]
+
+/-- one step of the greedy `.*`: either `.` takes the next character, or `\\s+` starts here -/
+theorem run_reSpacesTail_cons (prev : Option Nat) (d : Nat) (ds : Text) :
+    RX.run reSpacesTail prev (d :: ds) =
+      (if isDotChar d = true then (RX.run reSpacesTail (some d) ds).map (1 + ·) else []) ++
+        RX.run (RX.plus (.cls isSpace)) prev (d :: ds) := by
+  unfold reSpacesTail
+  rw [run_seq, run_star_cls, spanLen_cons]
+  by_cases hp : isDotChar d = true
+  · simp only [hp, if_true]
+    rw [← desc_shift, List.flatMap_append, List.flatMap_map]
+    simp only [List.flatMap_cons, List.flatMap_nil, List.append_nil, advPrev_zero, List.drop_zero,
+      Nat.zero_add, List.map_id']
+    congr 1
+    rw [run_seq, run_star_cls, List.map_flatMap]
+    congr 1
+    funext n
+    have h1 : (d :: ds).drop (1 + n) = ds.drop n := by rw [Nat.add_comm]; rfl
+    have h2 : advPrev prev (d :: ds) (1 + n) = advPrev (some d) ds n := by
+      rw [Nat.add_comm]; exact advPrev_cons _ _ _ _
+    rw [h1, h2, List.map_map]
+    congr 1
+    funext x
+    simp only [Function.comp]
+    omega
+  · simp [hp, desc, advPrev]
+
+theorem run_reSpacesTail_nil (prev : Option Nat) : RX.run reSpacesTail prev [] = [] := by
+  unfold reSpacesTail
+  rw [run_seq, run_star_cls]
+  simp [spanLen, desc, run_plus_cls]
+
+theorem lastSpaceEnd_none : ∀ (l : Text), lastSpaceEnd l = none → ∀ x ∈ l, isSpace x = false := by
+  intro l
+  induction l with
+  | nil => intro _ x hx; simp at hx
+  | cons c cs ih =>
+    intro h x hx
+    simp only [lastSpaceEnd] at h
+    cases hh : lastSpaceEnd cs with
+    | some e => simp [hh] at h
+    | none =>
+      simp only [hh] at h
+      simp only [List.mem_cons] at hx
+      rcases hx with rfl | hx
+      · by_cases hs : isSpace x = true
+        · simp [hs] at h
+        · simpa using hs
+      · exact ih hh x hx
+
+theorem spanLen_zero_of_all_false (p : Nat → Bool) (l : Text) (h : ∀ x ∈ l, p x = false) : spanLen p l = 0 := by
+  cases l with
+  | nil => rfl
+  | cons c cs => simp [spanLen, h c (by simp)]
+
+/-- on a final line (no `\\n`): `.*\\s+` backtracks to the LAST white-space character -/
+theorem head_reSpacesTail_noNL : ∀ (l : Text) (prev : Option Nat), (∀ x ∈ l, isDotChar x = true) →
+    (RX.run reSpacesTail prev l).head? = lastSpaceEnd l := by
+  intro l
+  induction l with
+  | nil => intro prev _; simp [run_reSpacesTail_nil, lastSpaceEnd]
+  | cons d ds ih =>
+    intro prev hall
+    have hd : isDotChar d = true := hall d (by simp)
+    have hrec := ih (some d) (fun x hx => hall x (by simp [hx]))
+    rw [run_reSpacesTail_cons, List.head?_append]
+    simp only [hd, if_true, List.head?_map, hrec, lastSpaceEnd]
+    cases hl : lastSpaceEnd ds with
+    | some e => simp; omega
+    | none =>
+      have hz := spanLen_zero_of_all_false isSpace ds (lastSpaceEnd_none ds hl)
+      rw [run_plus_cls]
+      by_cases hs : isSpace d = true
+      · simp [hs, hz, desc]
+      · simp [hs]
+
+/-- on a line that ends with `\\n`: `.*` takes the whole line and `\\s+` the `\\n` and all white space behind it -/
+theorem head_reSpacesTail_NL : ∀ (l : Text) (prev : Option Nat),
+    spanLen isDotChar l < l.length →
+    (RX.run reSpacesTail prev l).head? =
+      some (spanLen isDotChar l + spanLen isSpace (l.drop (spanLen isDotChar l))) := by
+  intro l
+  induction l with
+  | nil => intro prev h; simp [spanLen] at h
+  | cons d ds ih =>
+    intro prev h
+    rw [run_reSpacesTail_cons, List.head?_append, spanLen_cons]
+    by_cases hd : isDotChar d = true
+    · rw [spanLen_cons] at h
+      simp only [hd, if_true, List.length_cons] at h
+      have hrec := ih (some d) (by omega)
+      simp only [hd, if_true, List.head?_map, hrec, List.drop_succ_cons]
+      simp; omega
+    · have hnl : d = 0x0A := by simpa [isDotChar] using hd
+      have hs : isSpace d = true := by subst hnl; decide
+      simp only [hd, if_false, List.head?_nil, List.drop_zero, Nat.zero_add, Bool.false_eq_true]
+      rw [run_plus_cls]
+      simp only [hs, if_true, List.head?_map, desc_head, spanLen_cons]
+      simp; omega
+
+/-- white space is absent ⇒ SPACES matches nowhere -/
+theorem findFrom_reSpaces_none : ∀ (l : Text) (k : Nat) (prev : Option Nat),
+    (∀ x ∈ l, isSpace x = false) → RX.findFrom reSpaces k prev l = none := by
+  have htail : ∀ (l : Text) (prev : Option Nat), (∀ x ∈ l, isSpace x = false) → RX.run reSpacesTail prev l = [] := by
+    intro l
+    induction l with
+    | nil => intro prev _; exact run_reSpacesTail_nil prev
+    | cons d ds ih =>
+      intro prev h
+      rw [run_reSpacesTail_cons, ih (some d) (fun x hx => h x (by simp [hx])), run_plus_cls]
+      simp [h d (by simp)]
+  intro l
+  induction l with
+  | nil => intro k prev _; simp [RX.findFrom, run_reSpaces_nil]
+  | cons c cs ih =>
+    intro k prev h
+    have hcs : ∀ x ∈ cs, isSpace x = false := fun x hx => h x (by simp [hx])
+    simp only [RX.findFrom, run_reSpaces_cons, htail cs (some c) hcs]
+    simp [ih (k + 1) (some c) hcs]
+
+theorem spanLen_eq_length_all (p : Nat → Bool) : ∀ (l : Text), ¬ (spanLen p l < l.length) → ∀ x ∈ l, p x = true := by
+  intro l
+  induction l with
+  | nil => intro _ x hx; simp at hx
+  | cons c cs ih =>
+    intro h x hx
+    rw [spanLen_cons] at h
+    by_cases hc : p c = true
+    · simp only [hc, if_true, List.length_cons] at h
+      simp only [List.mem_cons] at hx
+      rcases hx with rfl | hx
+      · exact hc
+      · exact ih (by omega) x hx
+    · simp [hc] at h
+
+/-- **`SPACES.find(&s)`**: `spacesEnd` is the end of the leftmost-first match of `.+\\s+` in the window -/
+theorem spacesEnd_spec : ∀ (s : Text) (k : Nat) (prev : Option Nat),
+    (RX.findFrom reSpaces k prev s).map (·.2) = (spacesEnd s).map (k + ·) := by
+  intro s
+  induction s with
+  | nil => intro k prev; simp [RX.findFrom, run_reSpaces_nil, spacesEnd]
+  | cons c cs ih =>
+    intro k prev
+    by_cases hc : c = 0x0A
+    · subst hc
+      have hd : isDotChar 0x0A = false := by decide
+      simp only [RX.findFrom, run_reSpaces_cons, hd, spacesEnd, if_true, Bool.false_eq_true, if_false,
+        List.head?_nil]
+      rw [ih (k + 1) (some 0x0A)]
+      cases spacesEnd cs with
+      | none => rfl
+      | some e => simp; omega
+    · have hd : isDotChar c = true := by simp [isDotChar, hc]
+      simp only [RX.findFrom, run_reSpaces_cons, hd, if_true, spacesEnd, hc, if_false, List.head?_map]
+      have hline : spanLen (fun x => x != 0x0A) (c :: cs) = 1 + spanLen isDotChar cs := by
+        have : (fun x : Nat => x != 0x0A) = isDotChar := rfl
+        rw [this, spanLen_cons, hd]; simp; omega
+      simp only [spacesFrom, hline]
+      by_cases hlt : 1 + spanLen isDotChar cs < (c :: cs).length
+      · have hlt' : spanLen isDotChar cs < cs.length := by simp only [List.length_cons] at hlt; omega
+        rw [head_reSpacesTail_NL cs (some c) hlt']
+        have hdrop : (c :: cs).drop (1 + spanLen isDotChar cs) = cs.drop (spanLen isDotChar cs) := by
+          rw [Nat.add_comm]; rfl
+        simp only [hlt, if_true, hdrop, Option.map_some]
+        congr 1
+        omega
+      · have hall := spanLen_eq_length_all isDotChar cs (by simp only [List.length_cons] at hlt; omega)
+        rw [head_reSpacesTail_noNL cs (some c) hall]
+        simp only [hlt, if_false]
+        cases hl : lastSpaceEnd cs with
+        | some e => simp; omega
+        | none =>
+          simp only [Option.map_none]
+          rw [findFrom_reSpaces_none cs (k + 1) (some c) (lastSpaceEnd_none cs hl)]
+          rfl
+
+/-- leading white space is covered by the first match of `.*\\s+` -/
+theorem head_reSpacesTail_ge : ∀ (l : Text) (prev : Option Nat), 1 ≤ spanLen isSpace l →
+    ∃ h, (RX.run reSpacesTail prev l).head? = some h ∧ spanLen isSpace l ≤ h := by
+  intro l
+  induction l with
+  | nil => intro prev h; simp [spanLen] at h
+  | cons d ds ih =>
+    intro prev h
+    rw [spanLen_cons] at h
+    have hs : isSpace d = true := by
+      by_cases hs : isSpace d = true
+      · exact hs
+      · simp [hs] at h
+    rw [run_reSpacesTail_cons, List.head?_append, run_plus_cls, spanLen_cons]
+    simp only [hs, if_true, List.head?_map, desc_head]
+    by_cases hd : isDotChar d = true
+    · simp only [hd, if_true, List.head?_map]
+      cases hh : (RX.run reSpacesTail (some d) ds).head? with
+      | none => exact ⟨_, rfl, by simp; omega⟩
+      | some h' =>
+        by_cases hk : 1 ≤ spanLen isSpace ds
+        · obtain ⟨h2, hh2, hle⟩ := ih (some d) hk
+          rw [hh] at hh2
+          cases hh2
+          exact ⟨1 + h', rfl, by omega⟩
+        · exact ⟨1 + h', rfl, by omega⟩
+    · simp only [hd]
+      exact ⟨_, rfl, by simp; omega⟩
+
+/-- the first length of `.*\\s+` in backtracking order is also the largest -/
+theorem reSpacesTail_longest : ∀ (l : Text) (prev : Option Nat), ∀ m ∈ RX.run reSpacesTail prev l,
+    ∃ n, (RX.run reSpacesTail prev l).head? = some n ∧ m ≤ n := by
+  intro l
+  induction l with
+  | nil => intro prev m hm; simp [run_reSpacesTail_nil] at hm
+  | cons d ds ih =>
+    intro prev m hm
+    rw [run_reSpacesTail_cons] at hm ⊢
+    rw [List.head?_append]
+    rw [List.mem_append] at hm
+    by_cases hd : isDotChar d = true
+    · simp only [hd, if_true, List.mem_map, List.head?_map] at hm ⊢
+      rcases hm with ⟨m', hm', rfl⟩ | hm
+      · obtain ⟨n, hn, hle⟩ := ih (some d) m' hm'
+        exact ⟨1 + n, by simp [hn], by omega⟩
+      · rw [run_plus_cls] at hm ⊢
+        by_cases hs : isSpace d = true
+        · simp only [hs, if_true, List.mem_map, List.head?_map, desc_head] at hm ⊢
+          obtain ⟨m', hm', rfl⟩ := hm
+          have hm'' := desc_le _ _ hm'
+          cases hh : (RX.run reSpacesTail (some d) ds).head? with
+          | none => exact ⟨1 + spanLen isSpace ds, rfl, by omega⟩
+          | some h' =>
+            by_cases hk : 1 ≤ spanLen isSpace ds
+            · obtain ⟨h2, hh2, hle⟩ := head_reSpacesTail_ge ds (some d) hk
+              rw [hh] at hh2
+              cases hh2
+              exact ⟨1 + h', rfl, by omega⟩
+            · exact ⟨1 + h', rfl, by omega⟩
+        · simp [hs] at hm
+    · simp only [hd] at hm ⊢
+      simp only [Bool.false_eq_true, if_false, List.not_mem_nil, false_or] at hm
+      rw [run_plus_cls] at hm ⊢
+      by_cases hs : isSpace d = true
+      · simp only [hs, if_true, List.mem_map, List.head?_map, desc_head] at hm ⊢
+        obtain ⟨m', hm', rfl⟩ := hm
+        have hm'' := desc_le _ _ hm'
+        exact ⟨1 + spanLen isSpace ds, rfl, by omega⟩
+      · simp [hs] at hm
+
+/-- **SPACES at a position**: the first length in backtracking order is the largest one, so leftmost-longest
+semantics would report the same match as the leftmost-first engine -/
+theorem reSpaces_longest (l : Text) (prev : Option Nat) : ∀ m ∈ RX.run reSpaces prev l,
+    ∃ n, (RX.run reSpaces prev l).head? = some n ∧ m ≤ n := by
+  intro m hm
+  cases l with
+  | nil => simp [run_reSpaces_nil] at hm
+  | cons c cs =>
+    rw [run_reSpaces_cons] at hm ⊢
+    by_cases hd : isDotChar c = true
+    · simp only [hd, if_true, List.mem_map, List.head?_map] at hm ⊢
+      obtain ⟨m', hm', rfl⟩ := hm
+      obtain ⟨n, hn, hle⟩ := reSpacesTail_longest cs (some c) m' hm'
+      exact ⟨1 + n, by simp [hn], by omega⟩
+    · simp [hd] at hm
 
 end Sentence
